@@ -215,7 +215,8 @@ int fiber_io_unlock_thread() {
 static inline int should_block(int fd) {
   assert(fd >= 0);
   if (!thread_locked && fd_info && fd < max_fd &&
-      fd_info[fd].flags_ & (IO_FLAG_BLOCKING | IO_FLAG_WAITABLE)) {
+      (fd_info[fd].flags_ & (IO_FLAG_BLOCKING | IO_FLAG_WAITABLE)) ==
+          (IO_FLAG_BLOCKING | IO_FLAG_WAITABLE)) {
     return 1;
   }
   return 0;
@@ -609,17 +610,17 @@ int fcntl(int fd, int cmd, ...) {
   long val = va_arg(args, long);
   va_end(args);
 
-  if (!thread_locked) {
-    if (cmd == F_SETFL && (val == O_NONBLOCK || val == O_NDELAY)) {
-      assert(fd < max_fd);
-      atomic_fetch_and(&fd_info[fd].flags_, ~IO_FLAG_BLOCKING);
-      assert(!(fd_info[fd].flags_ & IO_FLAG_BLOCKING));
-      return 0;
+  if (!thread_locked && cmd == F_SETFL) {
+    // remember which mode the application asked for...
+    if (fd_info && fd >= 0 && (rlim_t)fd < max_fd) {
+      if (val & (O_NONBLOCK | O_NDELAY)) {
+        atomic_fetch_and(&fd_info[fd].flags_, ~IO_FLAG_BLOCKING);
+      } else {
+        atomic_fetch_or(&fd_info[fd].flags_, IO_FLAG_BLOCKING);
+      }
     }
-    // make sure O_NONBLOCK stays set
-    if (cmd == F_SETFL) {
-      val |= O_NONBLOCK;
-    }
+    // ...but make sure O_NONBLOCK stays set on the real descriptor
+    val |= O_NONBLOCK;
   }
 
   if (!fibershim_fcntl) {
